@@ -273,8 +273,8 @@ def parseExtraField : (fuel : Nat) → FileData → Bytes → FileData × Option
             | none => (f, some .invalidArchive)
             | some am =>
               let f1 := { f with aesMode := some (am, vv), method := Method.fromU16 cm }
-              -- `len_left` is still 7 here: the code seeks 7 bytes further
-              parseExtraField fuel f1 (r6.drop 7)
+              -- `len_left` = 7 - 7 = 0 here (K-C repaired): no seek, the next record starts at once
+              parseExtraField fuel f1 r6
       else
         parseExtraField fuel f (r2.drop len.toNat)
 
